@@ -185,6 +185,7 @@ func WorkerMain(t *testing.T, harnesses []*Harness) {
 		runs++
 		line := outLine{Result: res}
 		var unknown *Violation
+		emitted := false
 		for i := range res.Violations {
 			v := res.Violations[i]
 			known := false
@@ -202,12 +203,19 @@ func WorkerMain(t *testing.T, harnesses []*Harness) {
 			if !seen[key] && shrunk < 2 {
 				seen[key] = true
 				shrunk++
-				rf := Shrink(t, h, res, *unknown, 40*time.Second, 600)
+				// the un-shrunk replay file and the result line are written before shrinking: an execution that hangs
+				// in real time during shrinking (SHRINK-WATCHDOG) then still leaves a violation with a replay file behind
 				os.MkdirAll(job.ReplayDir, 0o755)
 				p := filepath.Join(job.ReplayDir, fmt.Sprintf("%s-%s-%d.json", job.Prop, job.Harness, seed))
-				rb, _ := json.MarshalIndent(rf, "", " ")
+				pre := &ReplayFile{Property: job.Prop, Spec: res.Spec, Expect: *unknown, Note: "not shrunk; replay by seed"}
+				rb, _ := json.MarshalIndent(pre, "", " ")
 				os.WriteFile(p, rb, 0o644)
 				line.ReplayPath = p
+				emit(line)
+				emitted = true
+				rf := Shrink(t, h, res, *unknown, 40*time.Second, 600)
+				rb, _ = json.MarshalIndent(rf, "", " ")
+				os.WriteFile(p, rb, 0o644)
 			}
 		}
 		if len(res.Violations) == 0 {
@@ -216,7 +224,9 @@ func WorkerMain(t *testing.T, harnesses []*Harness) {
 				res.Sample = nil
 			}
 		}
-		emit(line)
+		if !emitted {
+			emit(line)
+		}
 	}
 	emit(outLine{Done: true, Runs: runs})
 }
@@ -259,7 +269,12 @@ func Shrink(t *testing.T, h *Harness, failing *Result, target Violation, budget 
 		attempts++
 		s := spec
 		s.Gen, s.Sched = gen, sched
+		wd := time.AfterFunc(60*time.Second, func() {
+			fmt.Fprintf(os.Stderr, "SHRINK-WATCHDOG harness=%s seed=%d: a shrinking execution exceeded 60s of wall time; the un-shrunk replay file stands\n", spec.Harness, spec.Seed)
+			os.Exit(3)
+		})
 		res := Exec(t, h, s)
+		wd.Stop()
 		if res.Trouble == "" && hasViolation(res, target) {
 			spec.Gen = trimZeros(res.GenUsed)
 			spec.Sched = trimZeros(res.SchedUsed)
@@ -325,7 +340,12 @@ func Shrink(t *testing.T, h *Harness, failing *Result, target Violation, budget 
 	// final verbose execution of the minimal spec for the trace
 	fs := spec
 	fs.Verbose = true
+	fwd := time.AfterFunc(60*time.Second, func() {
+		fmt.Fprintf(os.Stderr, "SHRINK-WATCHDOG harness=%s seed=%d: the final execution exceeded 60s of wall time; the un-shrunk replay file stands\n", spec.Harness, spec.Seed)
+		os.Exit(3)
+	})
 	final := Exec(t, h, fs)
+	fwd.Stop()
 	if !hasViolation(final, target) {
 		final = best
 	}
